@@ -1,0 +1,7 @@
+//go:build verif
+
+package userauth
+
+// VerifInit encodes a user-authentication request exactly as
+// RequestAuthorization does (verification harness only).
+func VerifInit(user string) []byte { return newUserAuthInitMsg(user).toBytes() }
